@@ -446,8 +446,13 @@ class FuncRun(ExprMixin, InstrMixin, CallMixin):
             if k.startswith('#'):
                 continue
             vals = []
+            srt_ = None
             for s in states:
-                vals.append((s, s.heap[k] if k in s.heap else self.heap_get(s, k, None)))
+                if k in s.heap:
+                    srt_ = T.sort_of(s.heap[k])
+                    break
+            for s in states:
+                vals.append((s, s.heap[k] if k in s.heap else self.heap_get(s, k, srt_)))
             v0 = vals[0][1]
             if all(v == v0 for _, v in vals[1:]):
                 out.heap[k] = v0
@@ -603,7 +608,7 @@ class FuncRun(ExprMixin, InstrMixin, CallMixin):
             for p in ctx['fn']['params']:
                 names[p['name']] = (ctx['params'][p['name']], p['type'])
         cn = self.cellnames_for(ctx, header)
-        return Env(names, state, self.entry_state, cn, self.pkg)
+        return Env(names, state, self.entry_state, cn, self.pkg, prefer_cells=True)
 
     def enter_loop(self, ctx, header, st):
         cfg = ctx['cfg']
